@@ -4,6 +4,7 @@ import (
 	"fmt"
 	"os"
 	"path/filepath"
+	"regexp"
 	"sort"
 	"strings"
 
@@ -55,6 +56,9 @@ func c04Configs() []c04Config {
 		{Name: "crs-like", Yaml: sp(c04YamlPlain(c04CRS)), Cfg: c04CRS},
 		{Name: "crs-like-block-scalars", Yaml: sp(c04YamlBlock(c04CRS)), Cfg: c04CRS},
 		{Name: "dummy-literals", Yaml: sp(c04YamlPlain(dummy)), Cfg: dummy},
+		// keys the tool does not know, anywhere in the file, do not make the known ones go away
+		{Name: "crs-like-unknown-keys", Yaml: sp("version: 2\nmaintainer: 'someone'\n" + strings.Replace(c04YamlPlain(c04CRS), "patterns:\n", "patterns:\n  future_pattern:\n    unix: 'x'\n    bsd: 'y'\n", 1) + "other_section:\n  key: [1, 2]\n"), Cfg: c04CRS},
+		{Name: "dummy-with-anchors", Yaml: sp("defaults: &d\n  unix: '_av-u_'\n  windows: '_av-w_'\n" + strings.Replace(c04YamlPlain(dummy), "  anti_evasion:\n    unix: '_av-u_'\n    windows: '_av-w_'\n", "  anti_evasion: *d\n", 1)), Cfg: dummy},
 		{Name: "empty-file", Yaml: sp("")},
 		{Name: "only-unix-evasion", Yaml: sp("patterns:\n  anti_evasion:\n    unix: '[q]*'\n"), Cfg: ref.CmdCfg{UnixEvasion: "[q]*"}},
 		{Name: "absent"},
@@ -249,8 +253,74 @@ func C04(r *core.Run) {
 		}
 	})
 	deaths = append(deaths, d2...)
+	// blocks with many entries: every listed word (with the configured evasion text between its characters) must be matched whatever the
+	// size of the block (sizes around powers of two and multiples of them)
+	type bigRes struct {
+		N      int
+		Shell  string
+		Nested bool
+		Missed []string
+		Err    string
+	}
+	bigs, d3 := core.Parallel(r, "large", in{dir, 0}, r.Workers, func(in in, shard, n int, emit func(bigRes)) {
+		roots := mkRoots(filepath.Join(in.Dir, fmt.Sprint("l", shard)))
+		idx := 0
+		for _, size := range []int{63, 64, 65, 127, 128, 129, 255, 256, 257, 300, 511, 512, 513, 520, 1023, 1025} {
+			for _, shell := range []string{"unix", "windows"} {
+				for _, nested := range []bool{false, true} {
+					if idx++; idx%n != shard {
+						continue
+					}
+					var ws []string
+					for i := 0; i < size; i++ {
+						ws = append(ws, fmt.Sprintf("w%dx", i))
+					}
+					tpl := 0
+					if nested {
+						tpl = 3
+					}
+					prog := c04Program(ws, shell, tpl)
+					r.Inflight(fmt.Sprint("large ", size, shell, nested))
+					o := inproc.GenerateFresh(roots["dummy-literals"], prog)
+					res := bigRes{N: size, Shell: shell, Nested: nested}
+					if o.Kind != inproc.OK {
+						res.Err = o.Kind + " " + tailStr(o.Msg, 200)
+						emit(res)
+						continue
+					}
+					re, err := regexp.Compile(`\A(?:` + o.Out + `)\z`)
+					if err != nil {
+						res.Err = "output does not compile: " + err.Error()
+						emit(res)
+						continue
+					}
+					suffix := ""
+					if nested {
+						suffix = "x"
+					}
+					dummy := ref.CmdCfg{UnixEvasion: "_av-u_", WindowsEvasion: "_av-w_"}
+					for _, w := range ws {
+						// with literal patterns the plain reading of a word of letters and digits is itself a string
+						if !re.MatchString(ref.Cmd(w, shell == "windows", dummy) + suffix) {
+							res.Missed = append(res.Missed, w)
+						}
+					}
+					emit(res)
+				}
+			}
+		}
+	})
+	deaths = append(deaths, d3...)
 	if r.IsWorker() {
 		return
+	}
+	bigRuns := 0
+	for _, b := range bigs {
+		bigRuns++
+		if b.Err != "" || len(b.Missed) > 0 {
+			r.Report(core.Violation{Clause: "word-variants-included", Key: fmt.Sprintf("block of %d words shell=%s nested=%v", b.N, b.Shell, b.Nested),
+				What: fmt.Sprintf("cmdline %s block of %d words (nested in an assemble block: %v): %d words are not matched by the generated regex (first: %q) %s", b.Shell, b.N, b.Nested, len(b.Missed), firstOf(b.Missed), b.Err), Detail: b})
+		}
 	}
 	for _, d := range deaths {
 		r.HarnessError("worker %s/%d %s on %q: %s", d.Stage, d.Shard, d.Kind, d.Case, tailStr(d.Log, 300))
@@ -319,6 +389,7 @@ func C04(r *core.Run) {
 	r.Cov["inconclusive_pairs"] = tot.Inconclusive
 	r.Cov["distinct_nontrivial"] = tot.Cases
 	r.Cov["failing_cases"] = len(tot.Fails)
+	r.Cov["large_blocks"] = bigRuns
 	r.Cov["traces_validated_against_impl"] = validated
 	r.Cov["exhaustive"] = tot.Inconclusive == 0 && len(deaths) == 0
 	r.Cov["bound"] = map[string]any{"word_len": maxLen, "chars": c04Chars, "endings": c04Endings, "templates": 5, "configs": len(c04Configs()), "shells": 2}
@@ -326,4 +397,11 @@ func C04(r *core.Run) {
 	r.Cov["samples"] = []any{c04Case{"a.b@", "unix", 3, "crs-like"}, c04Case{`a -\~`, "windows", 1, "crs-like-block-scalars"}, c04Case{"'[ab]+c", "unix", 2, "absent"}}
 	r.Assume = append(r.Assume, "expected patterns per configuration are known to the generator (the YAML is written from them), the model never parses YAML",
 		"inclusion (not equality) is demanded: the property only says every variant is matched")
+}
+
+func firstOf(xs []string) string {
+	if len(xs) == 0 {
+		return ""
+	}
+	return xs[0]
 }
